@@ -1,33 +1,46 @@
 #!/usr/bin/env python3
-"""usage: tools/sweep_refactor.py <dir-with-_out> [...]: applies each behaviour-preserving refactoring (<dir>/_out/<k>/patch.diff)
-to /repo, runs every quick check, reverts, and reports any non-zero exit.  A VIOLATION here is a false alarm of the checker;
-exit 2 (ANCHOR-LOST) means the check cannot vouch for the refactored tree."""
+"""usage: tools/sweep_refactor.py [--props C01,C05] [names...]
+Applies each behaviour-preserving refactoring in /verif/refactors/<name>/patch.diff to /repo, runs the quick checks (all 20, or
+the given ones), reverts, and reports every non-zero exit.  A VIOLATION here is a false alarm of the checker; exit 2
+(ANCHOR-LOST) means the check cannot vouch for the refactored tree.  Results go to /verif/refactors/RESULTS.json."""
 import glob, json, os, re, subprocess, sys
 V = "/verif"
-PROPS = ["C%02d" % i for i in range(1, 21)]
-out = []
-for d in sys.argv[1:]:
-    for p in sorted(glob.glob(os.path.join(d, "_out", "*", "patch.diff"))):
-        name = "%s-%s" % (os.path.basename(d.rstrip("/")), os.path.basename(os.path.dirname(p)))
-        r = subprocess.run(["git", "-C", "/repo", "apply", "--whitespace=nowarn", p], capture_output=True, text=True)
-        if r.returncode != 0:
-            out.append((name, "patch does not apply", []))
-            continue
-        res = []
-        try:
-            for prop in PROPS:
-                c = subprocess.run(["python3", "fv/check.py", prop, "--tier", "quick"], cwd=V, capture_output=True, text=True)
-                if c.returncode != 0:
-                    lines = re.findall(r"^(  rule .*|ANCHOR-LOST.*|CHECKER-ERROR.*)$", c.stdout, re.M)[:3]
-                    res.append((prop, c.returncode, [l[:260] for l in lines]))
-        finally:
-            subprocess.call(["git", "-C", "/repo", "checkout", "--", "."])
-        out.append((name, "ok" if not res else "ALARM", res))
-        print(name, "ok" if not res else "ALARM %s" % [(a, b) for a, b, _ in res], flush=True)
-        for a, b, ls in res:
-            for l in ls:
-                print("    ", a, l)
-json.dump(out, open("/tmp/sweep_refactor.json", "w"), indent=1)
+args = sys.argv[1:]
+props = ["C%02d" % i for i in range(1, 21)]
+if args and args[0] == "--props":
+    props = args[1].split(",")
+    args = args[2:]
+names = args or sorted(os.path.basename(os.path.dirname(p)) for p in glob.glob(V + "/refactors/*/patch.diff"))
+res_all = {}
+rp = V + "/refactors/RESULTS.json"
+if os.path.exists(rp):
+    res_all = json.load(open(rp))
+for name in names:
+    p = "%s/refactors/%s/patch.diff" % (V, name)
+    r = subprocess.run(["git", "-C", "/repo", "apply", "--whitespace=nowarn", p], capture_output=True, text=True)
+    if r.returncode != 0:
+        print(name, "patch does not apply")
+        continue
+    res = {}
+    try:
+        for prop in props:
+            c = subprocess.run(["python3", "fv/check.py", prop, "--tier", "quick"], cwd=V, capture_output=True, text=True)
+            if c.returncode != 0:
+                lines = re.findall(r"^(  rule .*|ANCHOR-LOST.*|CHECKER-ERROR.*)$", c.stdout, re.M)[:3]
+                res[prop] = {"rc": c.returncode, "lines": [l[:260] for l in lines]}
+    finally:
+        subprocess.call(["git", "-C", "/repo", "checkout", "--", "."])
+    prev = res_all.get(name, {})
+    if len(props) < 20:
+        merged = {k: v for k, v in prev.items() if k not in props}
+        merged.update(res)
+        res = merged
+    res_all[name] = res
+    print(name, "silent" if not res else "ALARM %s" % [(a, b["rc"]) for a, b in sorted(res.items())], flush=True)
+    for a, b in sorted(res.items()):
+        for l in b["lines"]:
+            print("    ", a, l)
+json.dump(res_all, open(rp, "w"), indent=1, sort_keys=True)
 st = subprocess.run(["git", "-C", "/repo", "status", "--short"], capture_output=True, text=True).stdout
 if st.strip():
     print("WARNING /repo not clean:\n" + st)
